@@ -1,5 +1,6 @@
 import Verif.Lemmas.Await
 import Verif.Lemmas.ClientApi
+import Verif.Lemmas.AwaitSlow
 
 /-! # C01 — a request completes only with the response that bears its own id
 
@@ -263,6 +264,18 @@ theorem c01_client_uninitialized_initializes (R : Int → Bool) (okInit : α →
     ((clientSeq R okInit false start used ev (c :: rest)).head?.bind (·.init)).isSome = true := by
   simp only [clientSeq]
   split <;> simp
+
+/-! ## Progress callbacks that take time -/
+open Verif.Model.AwaitSlow in
+/-- However long the caller's progress callbacks take, a normal return is still the payload of the
+first response bearing the sent id. -/
+theorem c01_result_sound_slow_callbacks (R : Int → Bool) (cfg : Cfg α) (dur : Nat → Nat)
+    (ev : List (Nat × In α)) (p : α) (h : (runD R cfg dur ev).outcome = .returned p) :
+    ∃ pre a post, ev = pre ++ (a, In.resp cfg.reqId p) :: post ∧ NoMatch cfg pre := by
+  unfold runD at h
+  split at h
+  · simp at h
+  · exact loopD_returned_sound R cfg dur 0 ev _ _ _ p h
 
 /-! Non-vacuity: a concrete history meeting the hypotheses of `c01_complete` (a same-id server
 request and a foreign response precede the answer) and one meeting `c01_timeout_complete`. -/
